@@ -69,6 +69,10 @@ class AbstractDenseTimeOnlineInterpreter(AbstractOnlineInterpreter, DenseTimeInt
                     self.online_operator_dict[var_name].sample = var_object
 
 class DenseTimeOnlineUpdateVisitor(AbstractOnlineUpdateVisitor):
+    def __init__(self):
+        super(DenseTimeOnlineUpdateVisitor, self).__init__()
+        self.emitted_constants = set()
+
     def visitVariable(self, node, online_operator_dict, var_object_dict):
         vals = var_object_dict[node.var]
         if node.field:  #TODO Tom did not understand this line.
@@ -80,6 +84,11 @@ class DenseTimeOnlineUpdateVisitor(AbstractOnlineUpdateVisitor):
         return sample_return
 
     def visitConstant(self, node, online_operator_dict, var_object_dict):
+        # a constant is the signal [[0, c], [inf, c]]: it is complete after its first delivery,
+        # later updates have nothing new to add for it
+        if node in self.emitted_constants:
+            return []
+        self.emitted_constants.add(node)
         sample_return = [[0, node.val], [float("inf"), node.val]]
         return sample_return
 
